@@ -56,11 +56,14 @@ def run(ctx):
 
     def go(it):
         log.clear()
-        inc = Agg('Option', {'Some': [PATH], 'None': []}, disc=z3.If(has_path, z3.BitVecVal(1, 64), z3.BitVecVal(0, 64)))
-        out = it.call('create_shader_module_inner', [SRC, inc, write_options(S.conv, rustfmt=rustfmt)])
+        # the two PUBLIC functions (whatever they share internally): the include path is an uninterpreted string, possibly empty
+        if it.truth(has_path):
+            out = it.call('create_shader_module', [SRC, PATH, write_options(S.conv, rustfmt=rustfmt)])
+        else:
+            out = it.call('create_shader_module_embedded', [SRC, write_options(S.conv, rustfmt=rustfmt)])
         runs.append(dict(log))
         return out
-    res = ctx.explore('create_shader_module_inner/uninterpreted-source', go, env=env, anchors=['create_shader_module_inner'])
+    res = ctx.explore('create_shader_module + create_shader_module_embedded/uninterpreted-source', go, env=env, anchors=['create_shader_module_inner'])
     by = {}
     for (pc, kind, out, _), lg in zip(res, runs):
         m = ctx.witness(pc)
@@ -197,7 +200,7 @@ def native_corpus(ctx, base, only_first_failure=False):
         o.close()
     finally:
         shutil.rmtree(d, ignore_errors=True)
-    for path in ['shader.wgsl', 'dir with space/sh"ad\\er.wgsl', 'ünï/\U0001F600.wgsl', '../x\ty.wgsl']:
+    for path in ['', ' ', 'shader.wgsl', 'dir with space/sh"ad\\er.wgsl', 'ünï/\U0001F600.wgsl', '../x\ty.wgsl']:
         r = ctx.S.oracle.gen(base, {}, include=path)
         if 'ok' in r:
             val, _ = source_value(ctx, r['ok'])
